@@ -1035,3 +1035,79 @@ pub(crate) fn k_sample_reader_buffered_read() {
     }
     vk_assert!(r.buf.len() == 3 - n, "exactly the delivered samples leave the buffer");
 }
+
+// ------------------------------------------------------------------ FlacStreamReader::read: sync scan (C16)
+//
+// contract (header parser and frame-body decoder replaced by recorders): scanning a buffered source for frames
+//   * tries a header exactly at every 0xFF that is immediately followed by a byte whose upper 7 bits are 1111100,
+//     in stream order, with the reader positioned right after that byte pair's first byte — no candidate is skipped,
+//     whatever garbage (including stray 0xFF bytes) precedes it and wherever the source splits its buffer;
+//   * returns an error, not a frame, when the source ends.
+static G_SYNC_SEEN: [AtomicUsize; 4] = [const { AtomicUsize::new(0) }; 4];
+static G_SYNC_N: AtomicUsize = AtomicUsize::new(0);
+
+fn stub_read_subset_rec<R: std::io::Read>(reader: &mut R) -> Result<FrameHeader, Error> {
+    // consume the two sync bytes and the marker byte that follows them, record the marker, reject the header
+    let mut b = [0u8; 3];
+    let _ = reader.read_exact(&mut b);
+    let n = G_SYNC_N.load(Relaxed);
+    if n < 4 {
+        G_SYNC_SEEN[n].store(((b[0] as usize) << 16) | ((b[1] as usize) << 8) | b[2] as usize, Relaxed);
+    }
+    G_SYNC_N.store(n + 1, Relaxed);
+    Err(Error::Crc8Mismatch)
+}
+
+pub(crate) struct Chunked<const N: usize> {
+    pub data: [u8; N],
+    pub pos: usize,
+    pub chunk: usize,
+}
+impl<const N: usize> std::io::Read for Chunked<N> {
+    fn read(&mut self, buf: &mut [u8]) -> std::io::Result<usize> {
+        if buf.is_empty() || self.pos >= N { return Ok(0); }
+        buf[0] = self.data[self.pos];
+        self.pos += 1;
+        Ok(1)
+    }
+}
+impl<const N: usize> std::io::BufRead for Chunked<N> {
+    fn fill_buf(&mut self) -> std::io::Result<&[u8]> {
+        let end = if self.pos + self.chunk < N { self.pos + self.chunk } else { N };
+        Ok(&self.data[self.pos..end])
+    }
+    fn consume(&mut self, amt: usize) {
+        self.pos += amt;
+    }
+}
+
+macro_rules! k_stream_reader_sync_scan {
+    ($name:ident, [$($b:expr),*], $chunk:expr, [$($want:expr),*], $unw:expr) => {
+        #[kani::proof]
+        #[kani::unwind($unw)]
+        #[kani::stub(crate::stream::FrameHeader::read_subset, stub_read_subset_rec)]
+        pub(crate) fn $name() {
+            // data and refill size are concrete per instance: std's memchr over symbolic bytes runs CBMC out of memory
+            let data = [$($b),*];
+            let chunk: usize = $chunk;
+            let src = Chunked { data, pos: 0, chunk };
+            let mut r = FlacStreamReader::new(src);
+            let res = r.read().map(|_| ());
+            vk_assert!(res.is_err(), "no frame may be fabricated from a source that holds no valid header");
+            let want: &[usize] = &[$($want),*];
+            vk_assert!(G_SYNC_N.load(Relaxed) == want.len(), "a header is tried at every sync position and nowhere else");
+            let mut i = 0;
+            while i < want.len() {
+                vk_assert!(G_SYNC_SEEN[i].load(Relaxed) == want[i], "sync candidates are tried in stream order, none skipped");
+                i += 1;
+            }
+        }
+    };
+}
+// garbage, a stray 0xFF, then a real sync (FF F8) followed by marker 0x11 — whole buffer at once, and one byte per refill
+k_stream_reader_sync_scan!(k_stream_sync_after_stray_ff_c6, [0x00, 0xFF, 0xFF, 0xF8, 0x11, 0x00], 6, [0xFFF811], 10);
+k_stream_reader_sync_scan!(k_stream_sync_after_stray_ff_c1, [0x00, 0xFF, 0xFF, 0xF8, 0x11, 0x00], 1, [0xFFF811], 10);
+// two candidates: FF F9 22 and FF F8 33, with garbage between; refills split the second sync code
+k_stream_reader_sync_scan!(k_stream_sync_two_candidates_c5, [0xFF, 0xF9, 0x22, 0x00, 0xFF, 0xF8, 0x33], 5, [0xFFF922, 0xFFF833], 10);
+// no sync at all: FF followed by a non-sync byte, garbage
+k_stream_reader_sync_scan!(k_stream_sync_none_c2, [0x00, 0xFF, 0x00, 0x00], 2, [], 8);
